@@ -45,8 +45,8 @@ func Canon(v interface{}) string {
 }
 
 type snap struct {
-	sb      strings.Builder
-	ids     map[uintptr]int
+	sb         strings.Builder
+	ids        map[uintptr]int
 	withCap    bool
 	withIDs    bool
 	nilEqEmpty bool
